@@ -44,7 +44,7 @@ def crash_class(r):
     frames = []
     for ln in r.crash:
         m = re.search(r"/lib(smt|json|riddle|core|solver|executor|concurrent)\.so\((\w*)", ln)
-        if m and m.group(2):
+        if m and m.group(2) and not re.match(r"_ZNK?St|_ZSt|_ZN9__gnu|_ZNK9__gnu", m.group(2)):
             frames.append(m.group(2)[:60])
     sig = r.sig or 0
     for ln in r.crash:
@@ -81,9 +81,24 @@ class Check:
         self.known_seen = []
         self.violations = []  # (class, replay path, msg)
         self.machinery_error = None
+        self.unquarantine = {}
 
-    # ---- engine interface (overridable per engine through spec callbacks) ----
-    def job_for(self, i, config):
+    # ---- parts: a check is one or more (engine, workload) parts sharing the budget ----
+    def parts(self):
+        if "parts" in self.spec:
+            return self.spec["parts"]
+        return [{"engine": self.spec["engine"], "configs": self.spec["configs"], "share": 1.0, "run_kv": self.spec.get("run_kv", {}),
+                 "layouts": self.spec.get("layouts"), "jobs": self.spec.get("jobs")}]
+
+    # ---- engine interface ----
+    def job_for(self, i, config, part=None):
+        if part is not None:
+            saved = self.spec
+            self.spec = dict(saved, run_kv=part.get("run_kv", {}), layouts=part.get("layouts"))
+            try:
+                return self.job_for(i, config)
+            finally:
+                self.spec = saved
         k = self.spec.get("layouts", {}).get(self.tier, 0) if isinstance(self.spec.get("layouts"), dict) else 0
         if k:
             seed = C.run_seed(self.master, self.prop, self.tier, i // k)
@@ -95,6 +110,7 @@ class Check:
         if os.environ.get("VERIF_PROFILE"):
             kv["profile"] = os.environ["VERIF_PROFILE"]
         kv.update(self.extra_kv())
+        kv.update(self.unquarantine)
         return ("run", kv, None)
 
     @staticmethod
@@ -111,48 +127,58 @@ class Check:
         kv.update({k: v for k, v in params.items()})
         kv.update(self.spec.get("run_kv", {}))
         kv.update(self.extra_kv())
+        kv.update(self.unquarantine)
         if extra:
             kv.update(extra)
         return ("exec", kv, ops)
 
     # ---- phases ----
     def build(self):
-        for cfg in self.spec["configs"][self.tier]:
-            self.exes[cfg] = C.build_engine(self.spec["engine"], cfg)
+        for part in self.parts():
+            for cfg in part["configs"][self.tier]:
+                self.exes[(part["engine"], cfg)] = C.build_engine(part["engine"], cfg)
         self.build_s = time.time() - self.t0
 
     def explore(self):
         budget = self.spec["budget"][self.tier]
         if os.environ.get("VERIF_BUDGET"):
             budget = float(os.environ["VERIF_BUDGET"])
-        cfgs = self.spec["configs"][self.tier]
         nw = int(os.environ.get("VERIF_WORKERS", self.spec.get("workers", 14)))
-        per_cfg = budget / len(cfgs)
         self.failures = []
         base = 0
-        for cfg in cfgs:
-            deadline = time.time() + per_cfg
-            maxruns = int(os.environ.get("VERIF_MAXRUNS", "0"))
+        for part in self.parts():
+            cfgs = part["configs"][self.tier]
+            per_cfg = budget * part.get("share", 1.0) / len(cfgs)
+            for cfg in cfgs:
+                deadline = time.time() + per_cfg
+                maxruns = int(os.environ.get("VERIF_MAXRUNS", "0"))
 
-            def jobs():
-                i = 0
-                while not maxruns or i < maxruns:
-                    yield self.job_for(base + i, cfg)
-                    i += 1
+                def jobs(part=part, cfg=cfg, base=base):
+                    if part.get("jobs"):
+                        for j in part["jobs"](self, part, cfg):
+                            yield j
+                        return
+                    i = 0
+                    while not maxruns or i < maxruns:
+                        yield self.job_for(base + i, cfg, part)
+                        i += 1
 
-            fails = []
+                fails = []
 
-            def on_result(r, cfg=cfg, fails=fails):
-                r.kv["config"] = cfg
-                if is_failure(r):
-                    fails.append(r)
-                    return len({result_class(x) for x in fails}) >= int(os.environ.get('VERIF_MAX_CLASSES', 3)) or len(fails) >= int(os.environ.get('VERIF_MAX_FAILS', 12))
-                return False
+                def on_result(r, cfg=cfg, fails=fails, part=part):
+                    r.kv["config"] = cfg
+                    r.kv["engine"] = part["engine"]
+                    if is_failure(r):
+                        fails.append(r)
+                        return len({result_class(x) for x in fails}) >= int(os.environ.get('VERIF_MAX_CLASSES', 3)) or len(fails) >= int(os.environ.get('VERIF_MAX_FAILS', 12))
+                    return False
 
-            rs = run_parallel(self.exes[cfg], jobs(), nw, deadline=deadline, on_result=on_result)
-            self.results.extend(rs)
-            self.failures.extend(fails)
-            base += 10 ** 7
+                rs = run_parallel(self.exes[(part["engine"], cfg)], jobs(), nw, deadline=deadline, on_result=on_result)
+                self.results.extend(rs)
+                self.failures.extend(fails)
+                if part.get("jobs") and not fails and time.time() <= deadline:
+                    self.exhaustive_parts = getattr(self, "exhaustive_parts", 0) + 1
+                base += 10 ** 7
 
     def triage(self):
         """gate + minimise + replay file for each distinct failure class; known findings are named, not raised."""
@@ -163,7 +189,8 @@ class Check:
         for cls, rs in sorted(by_class.items(), key=lambda kv: str(kv[0])):
             r = min(rs, key=lambda x: len(x.kv.get("ops", "")) or 0)
             cfg = r.kv["config"]
-            w = Worker(self.exes[cfg])
+            eng = r.kv.get("engine", self.spec.get("engine"))
+            w = Worker(self.exes[(eng, cfg)])
             try:
                 verb, kv, body = r.cmd
                 # gate 1: same seed twice -> same class and same event-log hash
@@ -177,9 +204,15 @@ class Check:
                 ops = full.ops or list(body or [])
                 params = full.params
                 used = 0
-                if ops and self.spec.get("minimise", True):
-                    def execute(cand):
-                        return w.run(*self.exec_job(params, cand))
+                exec_kv = {k: v for k, v in kv.items() if k not in ("seed", "emit_ops", "verbose")}
+                exec_kv.update(params)
+                if eng == "io":
+                    ops = narrow_io(r, body)
+                    full = w.run("exec", exec_kv, ops)
+
+                def execute(cand):
+                    return w.run("exec", exec_kv, cand)
+                if ops and eng != "io" and self.spec.get("minimise", True):
                     first = execute(ops)
                     if result_class(first) == cls and time.time() - self.t0 < float(os.environ.get("VERIF_TRIAGE_DEADLINE", 150)):
                         ops, used = minimise(execute, ops, cls, budget=int(os.environ.get("VERIF_MIN_BUDGET", 300)), classify=result_class)
@@ -191,7 +224,7 @@ class Check:
                     ops = full.ops
                 msg = result_msg(final)
                 replay = {
-                    "engine": self.spec["engine"], "property": self.prop, "config": cfg, "seed": kv.get("seed"), "params": params, "ops": ops,
+                    "engine": eng, "property": self.prop, "config": cfg, "seed": kv.get("seed"), "params": params, "exec_kv": exec_kv, "ops": ops,
                     "expect": {"class": cls, "hash": final.kv.get("hash"), "msg": msg}, "minimisation_executions": used,
                 }
                 if self.extra_kv():
@@ -229,7 +262,9 @@ class Check:
                     if not any(k is f for k, _ in self.known_seen):
                         self.known_seen.append((f, result_msg(rr)))
                 else:
-                    C.log("note: canary of %s no longer reproduces (%s)" % (f.get("id"), rr.status if rr else "?"))
+                    C.log("note: canary of %s no longer reproduces (%s): its quarantine rule is switched off for this run" % (f.get("id"), rr.status if rr else "?"))
+                    if f.get("quarantine_kv"):
+                        self.unquarantine[f["quarantine_kv"]] = 0
             else:
                 self.regressions_run = getattr(self, "regressions_run", 0) + 1
                 if rr is not None and is_failure(rr):
@@ -269,6 +304,7 @@ class Check:
                 "known_findings_seen": [k.get("id") for k, _ in self.known_seen],
                 "regression_replays_of_fixed_findings_executed": getattr(self, "regressions_run", 0),
                 "build_s": round(getattr(self, "build_s", 0), 1),
+                "enumerated_parts_completed": getattr(self, "exhaustive_parts", 0),
             },
             "assumptions": self.spec.get("assumptions", []), "wall_s": round(wall, 1), "violations": len(self.violations),
         }
@@ -301,19 +337,51 @@ class Check:
         return 1 if self.violations else 0
 
 
+def narrow_io(r, body):
+    """an IO batch op failed at some input: the replay is the same op restricted to that single input."""
+    line = (body or [""])[0]
+    tag = None
+    if r.viol:
+        tag = r.viol[0].get("op")
+    if tag is None:
+        ks = [l for l in r.lines if l.startswith("K ")]
+        tag = ks[-1].split()[1] if ks else "0"
+    toks = [t for t in line.split(" ") if not (t.startswith("from=") or t.startswith("to=") or t.startswith("first=") or t.startswith("count="))]
+    if toks and toks[0] == "trunc":
+        toks += ["from=%s" % tag, "to=%d" % (int(tag) + 1)]
+    elif toks and toks[0] == "mut":
+        toks += ["first=%s" % tag, "count=1"]
+    return [" ".join(toks)]
+
+
 def replay_file(path, quiet=False, exes=None, prop=None):
     """execute a replay file in a fresh worker process; 1 = reproduces, 0 = does not."""
     from .props import PROPS
     rp = json.load(open(path))
     prop = prop or rp["property"]
     spec = PROPS[prop]
-    cfg = rp.get("config", spec["configs"]["quick"][0])
-    exe = (exes or {}).get(cfg) or C.build_engine(spec["engine"], cfg)
+    eng = rp.get("engine") or spec.get("engine") or spec["parts"][0]["engine"]
+    cfg = rp.get("config") or "dbg"
+    exe = (exes or {}).get((eng, cfg)) or C.build_engine(eng, cfg)
     w = Worker(exe)
     try:
         chk = Check(spec, prop, "quick", 0)
-        r = w.run(*chk.exec_job(rp.get("params", {}), rp["ops"], rp.get("exec_extra")))
+        if rp.get("exec_kv"):
+            kv = dict(rp["exec_kv"])
+            kv.setdefault("prop", prop)
+        else:
+            kv = {"prop": prop}
+            kv.update(rp.get("params", {}))
+            part_kv = spec.get("run_kv", {})
+            for part in spec.get("parts", []):
+                if part["engine"] == eng:
+                    part_kv = part.get("run_kv", {})
+            kv.update(part_kv)
+        kv.update(chk.extra_kv())
+        kv.update(rp.get("exec_extra") or {})
+        r = w.run("exec", kv, rp["ops"])
         r.kv["config"] = cfg
+        r.kv["engine"] = eng
     finally:
         w.close()
     cls = result_class(r)
